@@ -146,20 +146,37 @@ def run(prog, rep, tier, repo):
                 v = f.rvalue_term(dd[3], dd[1])
                 if tag(v) == 'const' and v[2] == 0.0:
                     zero_sites.append(dd[1])
+        def cond_on_arg(cn, depth=0):
+            # the condition mentions the argument, directly or through a flag / Option local whose definitions are themselves
+            # control dependent on the argument
+            if any(z == x for z in subterms(cn)):
+                return True
+            if depth >= 3:
+                return False
+            for z in subterms(cn):
+                if tag(z) == 'local':
+                    for st_ in f.stores():
+                        if st_.target == z and (any(q == x for q in subterms(st_.value)) or
+                                                any(cond_on_arg(c2, depth + 1) for c2 in f.control_conds(st_.bb))):
+                            return True
+            return False
         guarded = []
         for bb in zero_sites:
-            if any(any(z == x for z in subterms(cn)) for cn in f.control_conds(bb)):
+            if any(cond_on_arg(cn) for cn in f.control_conds(bb)):
                 guarded.append(bb)
-        if not guarded:
-            rep.viol('support-guard', key, '%s::%s has no branch that returns 0 depending on its argument: outside the support it evaluates the formula '
+        if not zero_sites:
+            rep.viol('support-guard', key, '%s::%s has no branch that returns 0: outside the support it evaluates the formula '
                      '(or fails) instead of returning 0' % (name, m), site_of(f.body))
+            continue
+        if not guarded:
+            rep.undecided('support-guard', key, 'a literal 0 is returned but its dependence on the argument was not traced', site_of(f.body), proof=False)
             continue
         # no narrowing arithmetic on x outside the guarded region: casts to unsigned / subtraction from unsigned before the test
         bad = []
         entry_guards = set()
         for bi in f.cfg.nodes:
             blk = f.body.blocks[bi]
-            xg = any(any(z == x for z in subterms(cn)) for cn in f.control_conds(bi))
+            xg = any(cond_on_arg(cn) for cn in f.control_conds(bi)) or any(cond_on_arg(cn) for cn, _ in f.guards().get(bi, []))
             if xg:
                 continue
             for st in blk.stmts:
